@@ -94,6 +94,9 @@ def correspondence(ctx):
         if rng.random() < 0.3:
             t[ctx.nprng().random(t.shape) < 0.15] = 0.0
         mx = rng.choice([0.05, 0.1, 0.2, 1.0, rng.uniform(0.01, 0.3)])
+        pos = t[(~np.isnan(t)) & (t > 0)]
+        if pos.size and rng.random() < 0.3:
+            mx = float(rng.choice(list(pos))) * (1 + rng.choice([-1, 1]) * 1e-6)
         f, m = gen.HC_damp(t.copy(), mx)
         out = ctx.model("hc_damp", t=_tbl(t), max=R(mx))
         ok = _same_tbl(out["filt"], f) and (np.asarray(m).astype(bool) == np.array(out["mask"], bool)).all()
@@ -144,6 +147,16 @@ def correspondence(ctx):
                     mpcv[i, j] = gen.MPC(phi[i, j, :])
                 except Exception:
                     pass
+        if rng.random() < 0.4:
+            # limits placed a relative 1e-6 beside an actual value (outside the 1e-9 band the property leaves unjudged):
+            # a comparison made "tolerant" would flip such cells
+            vals = mpcv[~np.isnan(mpcv)]
+            if vals.size:
+                mpc_lim = float(rng.choice(list(vals))) * (1 + rng.choice([-1, 1]) * 1e-6)
+            vals = mpdv[~np.isnan(mpdv)]
+            if vals.size and float(np.max(vals)) > 0:
+                mpd_lim = float(rng.choice([v for v in vals if v > 0] or [0.3])) * (1 + rng.choice([-1, 1]) * 1e-6)
+            ctx.count("hc_phi_near_threshold")
         m3, m4 = gen.HC_phi_comp(phi.copy(), mpc_lim, mpd_lim)
         out = ctx.model("hc_phi", mpd=_tbl(mpdv), mpc=_tbl(mpcv), mpc_lim=R(mpc_lim), mpd_lim=R(mpd_lim))
         ok = (np.asarray(m3).astype(bool) == np.array(out["mask_mpd"], bool)).all() and (
@@ -376,7 +389,19 @@ def _run_case(ctx, cls):
             kw.update(calc_unc=True, nb=rng.choice([10, 20]), method="cov_mm")
         alg = A(**kw)
         cap = _Capture(f_ssi, "SSI_poles")
-    setup.add_algorithms(alg)
+    # a sibling of the same class with OTHER criteria, created before either runs: each must run with its own
+    hc_sib = _rand_hc(ctx, with_cov=not is_pl)
+    if is_pl:
+        sib = A(name="sib", ordmax=ordmax, nxseg=alg.run_params.nxseg, hc=hc_sib)
+    else:
+        sib = A(**(kw | {"name": "sib", "hc": hc_sib}))
+    setup.add_algorithms(alg, sib)
+    if dict(alg.run_params.hc) != {k: hc[k] for k in alg.run_params.hc}:
+        ctx.oracle_cases += 1
+        ctx.violation("criteria-shared-between-instances", f"{cls}: creating a second algorithm with other hard criteria changed the criteria of the first",
+                      {"class": cls, "hc": {k: (v if isinstance(v, bool) else float(v)) for k, v in hc.items()}, "hc_sibling": {k: (v if isinstance(v, bool) else float(v)) for k, v in hc_sib.items()}},
+                      observed=str(dict(alg.run_params.hc)))
+        return hc
     with cap:
         setup.run_by_name("a")
     res = alg.result
